@@ -12,6 +12,6 @@ func TestC06(t *testing.T) {
 		Prop: "C06", Engine: "chainsim",
 		Generate: chainsim.GenLedger, Decode: chainsim.DecodePlan, Execute: chainsim.ExecLedger("C06"),
 		Shrink: chainsim.ShrinkPlan, Hash: chainsim.HashPlan,
-		StallS: 60, Meta: chainMeta,
+		StallS: 60, ShrinkBudget: 300, Meta: chainMeta,
 	})
 }
